@@ -828,6 +828,19 @@ class Exec:
         if it and isinstance(it, tuple) and it[0] == "range" and len(it) == 2:
             self.map_loop(s, it[1], env, path)
             return self.block(rest, env, path, outs, k)
+        # `for j, xj in enumerate(x)` over a 1-d array of symbolic length = `for j in range(len(x)): xj = x[j]; ...`
+        if isinstance(s.iter, ast.Call) and isinstance(s.iter.func, ast.Name) and s.iter.func.id == "enumerate" and len(s.iter.args) == 1 and not s.iter.keywords \
+                and isinstance(s.target, ast.Tuple) and len(s.target.elts) == 2 and all(isinstance(e_, ast.Name) for e_ in s.target.elts):
+            x = self.ev(s.iter.args[0], env, path)
+            if isinstance(x, T) and x.ndim >= 1:
+                jn, xn = s.target.elts
+                first = ast.Assign(targets=[ast.Name(id=xn.id, ctx=ast.Store())],
+                                   value=ast.Subscript(value=s.iter.args[0], slice=ast.Name(id=jn.id, ctx=ast.Load()), ctx=ast.Load()))
+                s2 = ast.For(target=ast.Name(id=jn.id, ctx=ast.Store()), iter=s.iter, body=[first] + list(s.body), orelse=[])
+                ast.copy_location(s2, s)
+                ast.fix_missing_locations(s2)
+                self.map_loop(s2, x.axes[0].size, env, path)
+                return self.block(rest, env, path, outs, k)
         raise Unsupported(f"for loop over symbolic iterable without a handler {key}")
 
     def unroll(self, s, seq, rest, env, path, outs, k):
